@@ -4,6 +4,8 @@ Everything returned is plain JSON so that a scenario document spells out every
 choice explicitly (DESIGN.md 2.2).  Only this module (and the per-property
 ``generate`` functions) draw from the PRNG.
 """
+import json
+
 from sim.seams import EXC_CLASSES
 
 SIDS = ("v1", "v2", "v3")
@@ -115,7 +117,7 @@ def gen_windows(rng, times, k, layout=None):
     layout = layout or rng.weighted([("disjoint", 5), ("mixed", 3), ("none", 2)])
     pts = boundary_points(rng, times)
     if layout == "none" or k == 0:
-        return [None] + _mixed(rng, pts, k - 1) if k > 1 else [None]
+        return _distinct([None] + _mixed(rng, pts, k - 1)) if k > 1 else [None]
     if layout == "disjoint":
         cuts = sorted(rng.sample(pts, min(len(pts), k + 1)))
         wins = [{"starting": cuts[i], "ending": cuts[i + 1]} for i in range(len(cuts) - 1)]
@@ -439,6 +441,20 @@ def gen_config(rng, tbl, max_ctx=4, max_tests=3, window_layout=None, fault_kinds
                 continue
             c["entries"].insert(rng.randint(0, len(c["entries"])), e)
             nf += 1
+    if len(contexts) >= 2 and rng.chance(0.08):
+        # the same window again, later in the list, with other tests: Config treats both as one Context
+        src = rng.pick(contexts[:-1])
+        dup = {"window": json.loads(json.dumps(src["window"])), "entries": []}
+        if src.get("region"):
+            dup["region"] = json.loads(json.dumps(src["region"]))
+        taken = {(e["sid"], e["module"], e["test"]) for e in src["entries"]}
+        for sid in rng.subset(sids, 0.7, at_least=1):
+            e = gen_healthy_entry(rng, sid, tbl, exclude={(m, t) for (s_, m, t) in taken if s_ == sid})
+            if (sid, e["module"], e["test"]) not in taken:
+                taken.add((sid, e["module"], e["test"]))
+                dup["entries"].append(e)
+        if dup["entries"]:
+            contexts.append(dup)
     if "F5" in fault_kinds and rng.chance(0.35):
         # a "dead" context: every entry names a stream the source does not have
         taken = {None if c["window"] is None else (c["window"].get("starting"), c["window"].get("ending")) for c in contexts}
